@@ -50,6 +50,26 @@ def run_guarded(ck, rule, func, construct_text, thunk):
 
 
 # ---------------------------------------------------------------------------- W-PACK
+# calls the interpreter models exactly (their terms are part of the comparison domain); any other call term is a
+# construct the analysis does not understand, and a mismatch that involves one is UNKNOWN, never a violation
+MODELLED_CALLS = {"encode", "decode", "hex", "rstrip", "strip", "isdigit", "floor", "int", "float", "hash", "dictget", "items", "round",
+                  "isinstance", "enumname", "fstring", "strformat", "dcfield", "undefattr",
+                  ".timestamp", ".exists", ".readline", ".read", ".astimezone", "datetime.datetime.fromtimestamp"}
+
+
+def opaque_calls(t, limit=3):
+    """names of unmodelled call terms inside t (at most `limit`)"""
+    from .terms import subterms
+    out = []
+    for x in subterms(t):
+        if x.k == "call" and x.a[0] not in MODELLED_CALLS:
+            if x.a[0] not in out:
+                out.append(x.a[0])
+            if len(out) >= limit:
+                break
+    return out
+
+
 def check_pack_layout(ck, it, env, packed, spec, func, what, extra_widths=None, rule="W-PACK"):
     """compare a packed bcat term with a reference spec"""
     ctx = make_ctx(it, spec, extra_widths)
@@ -59,6 +79,10 @@ def check_pack_layout(ck, it, env, packed, spec, func, what, extra_widths=None, 
     problems += compare_streams(cells, ref)
     detail = f"layout = {stream_str(cells, 300)}"
     if problems:
+        oc = opaque_calls(packed)
+        if oc:
+            ck.unknown(rule, func, what, f"the packed value is built with constructs the analysis does not model ({', '.join(oc)}): {show(packed)[:160]}")
+            return False, cells
         ck.refuted(rule, func, what, "; ".join(problems[:4]) + f" | inferred {stream_str(cells, 260)} | reference {stream_str(ref, 260)}")
         return False, cells
     ck.proved(rule, func, what, detail)
@@ -71,6 +95,10 @@ def check_field_bits(ck, it, term, expect_bits, func, what, rule="W-UNPACK", ctx
     ctx = ctx or BitCtx(enum_width=enum_width_fn(it))
     bv = norm_bits(term, ctx)
     if bv is None:
+        oc = opaque_calls(term)
+        if oc:
+            ck.unknown(rule, func, what, f"the decoded value uses constructs the analysis does not model ({', '.join(oc)}): {show(term)[:160]}")
+            return False
         ck.refuted(rule, func, what, f"decoded value {show(term)[:160]} is outside the bit domain ({'; '.join(ctx.problems[-2:])})")
         return False
     n = len(expect_bits)
@@ -81,6 +109,10 @@ def check_field_bits(ck, it, term, expect_bits, func, what, rule="W-UNPACK", ctx
     if width_bound and not bv.high_clear(n):
         probs.append(f"bits above bit {n - 1} may be set: {show(term)[:120]}")
     if probs:
+        oc = opaque_calls(term)
+        if oc:
+            ck.unknown(rule, func, what, f"the decoded value uses constructs the analysis does not model ({', '.join(oc)}): {show(term)[:160]}")
+            return False
         ck.refuted(rule, func, what, "; ".join(probs))
         return False
     ck.proved(rule, func, what, f"{show(term)[:120]} = [{fmt_bits(got)}]")
@@ -94,6 +126,10 @@ def check_lin_equal(ck, term, expect: Lin, func, what, rule="L-LEN", rename=None
     if got.key() == expect.key():
         ck.proved(rule, func, what, f"{show(term)[:120]} == {expect!r}")
         return True
+    oc = opaque_calls(term)
+    if oc:
+        ck.unknown(rule, func, what, f"the value uses constructs the analysis does not model ({', '.join(oc)}): {show(term)[:160]}")
+        return False
     ck.refuted(rule, func, what, f"inferred {got!r}, reference {expect!r}")
     return False
 
